@@ -969,10 +969,22 @@ func (c *Conn) handleData(arg string) {
 	}
 
 	r := newDataReader(c)
-	code, enhancedCode, msg := dataErrorToStatus(c.Session().Data(r))
+	err := c.Session().Data(r)
 	r.limited = false
 	io.Copy(ioutil.Discard, r) // Make sure all the data has been consumed
-	c.writeResponse(code, enhancedCode, msg)
+	if r.connErr != nil {
+		// The connection failed (was lost, timed out) before the end of
+		// the message: the message is not complete whatever the backend
+		// made of its beginning, and what may still arrive is the rest of
+		// it, not commands.
+		if err == nil {
+			err = r.connErr
+		}
+		c.writeResponse(dataErrorToStatus(err))
+		c.Close()
+		return
+	}
+	c.writeResponse(dataErrorToStatus(err))
 }
 
 func (c *Conn) handleBdat(arg string) {
@@ -996,8 +1008,14 @@ func (c *Conn) handleBdat(arg string) {
 		c.writeResponse(code, enhCode, msg)
 
 		c.lineLimitReader.LineLimit = 0
-		io.Copy(ioutil.Discard, io.LimitReader(c.text.R, int64(size)))
+		chunk := &io.LimitedReader{R: c.text.R, N: int64(size)}
+		io.Copy(ioutil.Discard, chunk)
 		c.lineLimitReader.LineLimit = c.server.MaxLineLength
+		if chunk.N > 0 {
+			// The connection failed inside the chunk: what may still
+			// arrive is the rest of it, not commands.
+			c.Close()
+		}
 	}
 
 	if len(args) > 2 {
@@ -1085,7 +1103,7 @@ func (c *Conn) handleBdat(arg string) {
 
 	c.lineLimitReader.LineLimit = 0
 
-	chunk := io.LimitReader(c.text.R, int64(size))
+	chunk := &io.LimitedReader{R: c.text.R, N: int64(size)}
 	n, err := io.Copy(pipe, chunk)
 	if err == nil && n < int64(size) {
 		// The connection was lost inside the chunk.
@@ -1107,7 +1125,9 @@ func (c *Conn) handleBdat(arg string) {
 			c.writeResponse(dataErrorToStatus(err))
 		}
 
-		if err == errPanic {
+		if err == errPanic || chunk.N > 0 {
+			// (a chunk that has not been received in full: what may
+			// still arrive is the rest of it, not commands)
 			c.Close()
 		}
 
@@ -1241,6 +1261,10 @@ func (c *Conn) handleDataLMTP() {
 		err := c.Session().Data(r)
 		r.limited = false
 		io.Copy(ioutil.Discard, r) // Make sure all the data has been consumed
+		if err == nil {
+			// An incomplete message has not been delivered.
+			err = r.connErr
+		}
 		for _, rcpt := range c.recipients {
 			status.SetStatus(rcpt, err)
 		}
@@ -1261,9 +1285,14 @@ func (c *Conn) handleDataLMTP() {
 				}
 			}()
 
-			status.fillRemaining(lmtpSession.LMTPData(r, status))
+			err := lmtpSession.LMTPData(r, status)
 			r.limited = false
 			io.Copy(ioutil.Discard, r) // Make sure all the data has been consumed
+			if err == nil {
+				// An incomplete message has not been delivered.
+				err = r.connErr
+			}
+			status.fillRemaining(err)
 			done <- true
 		}()
 	}
@@ -1274,8 +1303,9 @@ func (c *Conn) handleDataLMTP() {
 	}
 
 	// If done gets false, the panic occured in LMTPData and the connection
-	// should be closed.
-	if !<-done {
+	// should be closed. So it is when the connection failed before the end of
+	// the message: what may still arrive is the rest of it, not commands.
+	if !<-done || r.connErr != nil {
 		c.Close()
 	}
 }
